@@ -161,6 +161,7 @@ int main(int argc, char** argv) {
             Step s; s.kind = f[0]; s.payload = pctdec(f.size() > 1 ? f[1] : ""); kv(f, 2, s.opt); c.steps.push_back(s);
         } else if (f[0] == "END" && have) {
             gOut.line("BEGIN\t" + c.id); gOut.flush();
+            if (getenv("XV_SYSCALL_MARKERS")) { std::string mk = "/xv-case/" + c.id; if (access(mk.c_str(), F_OK)) {} }   // visible to strace: attributes syscalls to cases
             std::map<std::string, CmdFn>::iterator it = cmds().find(c.cmd);
             if (it == cmds().end()) gOut.line("BADCMD\t" + c.cmd);
             else {
